@@ -233,8 +233,145 @@ def _calls(fn, attr):
     return [n for n in ast.walk(fn) if isinstance(n, ast.Call) and isinstance(n.func, ast.Attribute) and n.func.attr == attr]
 
 
+# ---------------------------------------------------------------------------------------------------------------------
+# normalisation before translating (behaviour-preserving rewrites the translator looks through)
+# ---------------------------------------------------------------------------------------------------------------------
+def _literal(node):
+    """is this AST a literal made of ints / strs / bytes / bools / None and tuples thereof?"""
+    if isinstance(node, ast.Constant):
+        return True
+    if isinstance(node, ast.Tuple):
+        return all(_literal(e) for e in node.elts)
+    return False
+
+
+def _inline_module_literals(tree):
+    """named module-level constants (assigned exactly once, to a literal, at module level) are replaced by their value
+    wherever they are read: `packet[:COMMUNITY_PREFIX_LENGTH]` is `packet[:22]`"""
+    import copy
+    assigned = {}
+    for n in tree.body:
+        targets = []
+        if isinstance(n, ast.Assign):
+            targets, val = n.targets, n.value
+        elif isinstance(n, ast.AnnAssign) and n.value is not None:
+            targets, val = [n.target], n.value
+        for t in targets:
+            if isinstance(t, ast.Name):
+                assigned.setdefault(t.id, []).append(val)
+    # a name that is written anywhere else (function bodies, global statements) is not a constant
+    written = {}
+    for n in ast.walk(tree):
+        if isinstance(n, ast.Name) and isinstance(n.ctx, (ast.Store, ast.Del)):
+            written[n.id] = written.get(n.id, 0) + 1
+    consts = {k: v[0] for k, v in assigned.items() if len(v) == 1 and written.get(k) == 1 and _literal(v[0])}
+
+    class Tr(ast.NodeTransformer):
+        def visit_Name(self, node):
+            if isinstance(node.ctx, ast.Load) and node.id in consts:
+                return ast.copy_location(copy.deepcopy(consts[node.id]), node)
+            return node
+    for n in tree.body:
+        if isinstance(n, ast.ClassDef):
+            Tr().visit(n)
+    ast.fix_missing_locations(tree)
+    return tree
+
+
+def _assigned_names(stmts):
+    out = set()
+    for st in stmts:
+        for n in ast.walk(st):
+            if isinstance(n, ast.Name) and isinstance(n.ctx, ast.Store):
+                out.add(n.id)
+    return out
+
+
+def _inline_private_helpers(cls, fn, depth=0):
+    """`self._helper(args)` used as a statement is replaced by the helper's body with the parameters substituted by the
+    argument expressions (names / attribute chains / literals only), recursively.  A helper that contains `return` may
+    only be called in tail position (nothing can run after the call), so its returns are the caller's returns; a helper
+    that assigns to a name the caller also uses may likewise only be called in tail position."""
+    import copy
+    if depth > 4:
+        raise TranslatorError(f"{cls.name}.{fn.name}: helper calls nested too deeply")
+    methods = {n.name: n for n in cls.body if isinstance(n, ast.FunctionDef)}
+    caller_names = {a.arg for a in fn.args.args} | _assigned_names(fn.body)
+
+    def simple(e):
+        return isinstance(e, (ast.Name, ast.Constant)) or (isinstance(e, ast.Attribute) and simple(e.value)) or _literal(e)
+
+    def expand(stmts, tail):
+        out = []
+        for i, st in enumerate(stmts):
+            last = tail and i == len(stmts) - 1
+            if isinstance(st, ast.If):
+                st = copy.copy(st)
+                # a branch is in tail position if the `if` is, or if nothing follows the `if` … (only the former is used)
+                st.body = expand(st.body, last)
+                st.orelse = expand(st.orelse, last)
+                out.append(st)
+                continue
+            if isinstance(st, ast.While):
+                st = copy.copy(st)
+                st.body = expand(st.body, False)
+                out.append(st)
+                continue
+            call = st.value if isinstance(st, ast.Expr) and isinstance(st.value, ast.Call) else None
+            if call is not None and isinstance(call.func, ast.Attribute) and isinstance(call.func.value, ast.Name) \
+                    and call.func.value.id == "self" and call.func.attr.startswith("_") and call.func.attr in methods \
+                    and not call.func.attr.startswith("__"):
+                h = methods[call.func.attr]
+                static = any(isinstance(d, ast.Name) and d.id == "staticmethod" for d in h.decorator_list)
+                params = [a.arg for a in h.args.args][0 if static else 1:]
+                if h.args.vararg or h.args.kwarg or h.args.kwonlyargs or len(call.args) > len(params):
+                    raise TranslatorError(f"{cls.name}.{h.name}: unsupported helper signature")
+                binding = dict(zip(params, call.args))
+                for kw in call.keywords:
+                    if kw.arg is None or kw.arg not in params or kw.arg in binding:
+                        raise TranslatorError(f"{cls.name}.{h.name}: unsupported helper call")
+                    binding[kw.arg] = kw.value
+                if set(binding) != set(params) or not all(simple(v) for v in binding.values()):
+                    raise TranslatorError(f"{cls.name}.{h.name}: helper called with non-trivial or missing arguments")
+                hbody = _body(h)
+                has_return = any(isinstance(n, ast.Return) for b in hbody for n in ast.walk(b))
+                if any(isinstance(n, ast.Return) and n.value is not None for b in hbody for n in ast.walk(b)):
+                    raise TranslatorError(f"{cls.name}.{h.name}: helper returns a value")
+                clash = (_assigned_names(hbody) - set(params)) & caller_names
+                if (has_return or clash or (_assigned_names(hbody) & set(params))) and not last:
+                    raise TranslatorError(f"{cls.name}.{h.name}: helper with early return / clashing locals is not called "
+                                          "in tail position")
+
+                class Sub(ast.NodeTransformer):
+                    def visit_Name(self, node):
+                        if isinstance(node.ctx, ast.Load) and node.id in binding:
+                            return ast.copy_location(copy.deepcopy(binding[node.id]), node)
+                        return node
+                inlined = [Sub().visit(copy.deepcopy(b)) for b in hbody]
+                fake = ast.FunctionDef(name=h.name, args=fn.args, body=inlined, decorator_list=[], lineno=h.lineno,
+                                       col_offset=0)
+                inlined = _inline_private_helpers(cls, fake, depth + 1).body if True else inlined
+                # the helper's trailing bare `return` is not needed; an inner `return` stays (tail position)
+                out.extend(inlined)
+                continue
+            out.append(st)
+        return out
+    new = copy.copy(fn)
+    new.body = expand(_body(fn), True)
+    ast.fix_missing_locations(new)
+    return new
+
+
+def _send_function():
+    """TunnelEndpoint.send after normalisation: module constants inlined, private helpers inlined"""
+    ep = _inline_module_literals(_parse(EP))
+    tep = _cls(ep, "TunnelEndpoint", EP)
+    return ep, tep, _inline_private_helpers(tep, _fn(tep, "send"))
+
+
 def translate() -> tuple[str, dict]:
-    ep, tun, tc, com = _parse(EP), _parse(TUN), _parse(TC), _parse(COM)
+    tun, tc, com = _parse(TUN), _parse(TC), _parse(COM)
+    ep, tep_norm, send_norm = _send_function()
     consts = _module_consts(tun)
     meta: dict = {}
     out = ["/- GENERATED by tools/gen_c07.py from " + ", ".join([EP, TUN, TC, COM, SVC]) + " — do not edit -/",
@@ -304,7 +441,7 @@ def translate() -> tuple[str, dict]:
     if [ast.unparse(s) for s in _body(sa) if not _is_logging(s)] != ["self.settings[prefix] = enable"]:
         raise TranslatorError("set_anonymity no longer just stores `self.settings[prefix] = enable`")
 
-    send = _fn(tep, "send")
+    send = send_norm
     if [a.arg for a in send.args.args] != ["self", "address", "packet"]:
         raise TranslatorError("TunnelEndpoint.send: unexpected signature")
     # prefix = packet[:N]  (or the slice used in place)
@@ -539,15 +676,51 @@ def translate() -> tuple[str, dict]:
     if params != ["self"] + FIND_PARAMS or len(fc.args.defaults) != 4:
         raise TranslatorError(f"find_circuits: unexpected parameters {params}")
     fb = _body(fc)
-    if not (len(fb) == 1 and isinstance(fb[0], ast.Return) and isinstance(fb[0].value, ast.ListComp)):
-        raise TranslatorError("find_circuits is no longer a single list comprehension")
-    lc = fb[0].value
-    g = lc.generators[0]
-    if not (len(lc.generators) == 1 and isinstance(lc.elt, ast.Name) and isinstance(g.target, ast.Name)
-            and lc.elt.id == g.target.id and ast.unparse(g.iter) == "self.circuits.values()" and not g.is_async):
-        raise TranslatorError("find_circuits: comprehension is not `[c for c in self.circuits.values() if ...]`")
-    _CVAR[0] = g.target.id
-    cond = " && ".join(_find_cond(i) for i in g.ifs) if g.ifs else "true"
+    if len(fb) == 1 and isinstance(fb[0], ast.Return) and isinstance(fb[0].value, ast.ListComp):
+        lc = fb[0].value
+        g = lc.generators[0]
+        if not (len(lc.generators) == 1 and isinstance(lc.elt, ast.Name) and isinstance(g.target, ast.Name)
+                and lc.elt.id == g.target.id and ast.unparse(g.iter) == "self.circuits.values()" and not g.is_async):
+            raise TranslatorError("find_circuits: comprehension is not `[c for c in self.circuits.values() if ...]`")
+        _CVAR[0] = g.target.id
+        keep = list(g.ifs)
+    else:
+        # the same filter written as a loop: result = []; for c in self.circuits.values(): [if G: continue]* result.append(c)
+        def empty_list_init(st):
+            val = st.value if isinstance(st, (ast.Assign, ast.AnnAssign)) else None
+            tgt = (st.targets[0] if isinstance(st, ast.Assign) and len(st.targets) == 1 else
+                   st.target if isinstance(st, ast.AnnAssign) else None)
+            return tgt.id if isinstance(tgt, ast.Name) and isinstance(val, ast.List) and not val.elts else None
+        ok = len(fb) == 3 and empty_list_init(fb[0]) and isinstance(fb[1], ast.For) and not fb[1].orelse \
+            and isinstance(fb[1].target, ast.Name) and ast.unparse(fb[1].iter) == "self.circuits.values()" \
+            and isinstance(fb[2], ast.Return) and isinstance(fb[2].value, ast.Name) and fb[2].value.id == empty_list_init(fb[0])
+        if not ok:
+            raise TranslatorError("find_circuits is neither a single list comprehension nor `r = []; for c in "
+                                  "self.circuits.values(): [if …: continue]* r.append(c); return r`")
+        res, var = empty_list_init(fb[0]), fb[1].target.id
+        *guards, last = fb[1].body
+        if ast.unparse(last) != f"{res}.append({var})" or not all(
+                isinstance(gd, ast.If) and not gd.orelse and len(gd.body) == 1 and isinstance(gd.body[0], ast.Continue)
+                for gd in guards):
+            raise TranslatorError("find_circuits: loop body is not a sequence of `if …: continue` followed by an append")
+        _CVAR[0] = var
+
+        def negate(e):
+            """the condition under which a guard does NOT skip the circuit, in the form the comprehension would use"""
+            if isinstance(e, ast.BoolOp):
+                return ast.BoolOp(op=ast.Or() if isinstance(e.op, ast.And) else ast.And(), values=[negate(v) for v in e.values])
+            if isinstance(e, ast.UnaryOp) and isinstance(e.op, ast.Not):
+                return e.operand
+            if isinstance(e, ast.Compare) and len(e.ops) == 1:
+                flip = {ast.Is: ast.IsNot, ast.IsNot: ast.Is, ast.Eq: ast.NotEq, ast.NotEq: ast.Eq}.get(type(e.ops[0]))
+                if flip is not None:
+                    return ast.Compare(left=e.left, ops=[flip()], comparators=e.comparators)
+            return ast.UnaryOp(op=ast.Not(), operand=e)
+        keep = [ast.fix_missing_locations(negate(gd.test)) for gd in guards]
+    flat = []
+    for kcond in keep:       # one conjunction or several `if`s / guards: the same list of conjuncts
+        flat += kcond.values if isinstance(kcond, ast.BoolOp) and isinstance(kcond.op, ast.And) else [kcond]
+    cond = " && ".join(_find_cond(i) for i in flat) if flat else "true"
     out += ["/-- translated from the filter of TunnelCommunity.find_circuits -/",
             "def findPred (ctype : Option CType) (state : Option CState) (exitFlags : Option (List Nat))",
             "    (hops : Option Nat) (c : Circuit) : Bool :=", f"  {cond}", ""]
@@ -686,13 +859,13 @@ class _SendTr:
     def ends_in_return(self, stmts):
         return bool(stmts) and isinstance(stmts[-1], ast.Return)
 
-    def is_send_data(self, call):
+    def is_send_data(self, call, addr="address", pkt="packet"):
         if not (isinstance(call, ast.Call) and isinstance(call.func, ast.Attribute) and call.func.attr == "send_data"
                 and self.is_tc(call.func.value) and len(call.args) == 5 and not call.keywords):
             return False
         a = [ast.unparse(x) for x in call.args]
-        return a[0] == "circuit.hop.address" and a[1] in ("circuit_id", "circuit.circuit_id") and a[2] == "address" \
-            and a[3] == "('0.0.0.0', 0)" and a[4] == "packet"
+        return a[0] == "circuit.hop.address" and a[1] in ("circuit_id", "circuit.circuit_id") and a[2] == addr \
+            and a[3] == "('0.0.0.0', 0)" and a[4] == pkt
 
     def tr(self, stmts, acts, handled, env, ind):
         pad = "  " * ind
@@ -745,6 +918,8 @@ class _SendTr:
                 return self.tr(then_stmts, acts, handled, env, ind)
             if c == "false":
                 return self.tr(else_stmts, acts, handled, env, ind)
+            if c in ("(!s.attached)",):          # normal form: a guard clause and a nested `if` give the same term
+                c, then_stmts, else_stmts = "s.attached", else_stmts, then_stmts
             return (f"{pad}if {c} then\n" + self.tr(then_stmts, acts, handled, env, ind + 1)
                     + f"\n{pad}else\n" + self.tr(else_stmts, acts, handled, env, ind + 1))
         if isinstance(st, ast.Expr) and isinstance(st.value, ast.Call):
@@ -761,9 +936,12 @@ class _SendTr:
                     raise TranslatorError("send: send_data where circuit may be None")
                 loop = rest[0] if rest else None
                 ok = (isinstance(loop, ast.While) and ast.unparse(loop.test) == "self.send_queue" and not loop.orelse
-                      and len(loop.body) == 2
-                      and ast.unparse(loop.body[0]) == "address, packet = self.send_queue.popleft()"
-                      and isinstance(loop.body[1], ast.Expr) and self.is_send_data(loop.body[1].value))
+                      and len(loop.body) == 2 and isinstance(loop.body[0], ast.Assign) and len(loop.body[0].targets) == 1
+                      and isinstance(loop.body[0].targets[0], ast.Tuple) and len(loop.body[0].targets[0].elts) == 2
+                      and all(isinstance(e, ast.Name) for e in loop.body[0].targets[0].elts)
+                      and ast.unparse(loop.body[0].value) == "self.send_queue.popleft()"
+                      and isinstance(loop.body[1], ast.Expr)
+                      and self.is_send_data(loop.body[1].value, *[e.id for e in loop.body[0].targets[0].elts]))
                 if not ok:
                     raise TranslatorError("send: send_data is not followed by `while self.send_queue: address, packet = "
                                           "self.send_queue.popleft(); send_data(… same circuit …)`")
@@ -774,8 +952,7 @@ class _SendTr:
 
 
 def translate_send() -> str:
-    ep = _parse(EP)
-    send = _fn(_cls(ep, "TunnelEndpoint", EP), "send")
+    _, _, send = _send_function()
     if [a.arg for a in send.args.args] != ["self", "address", "packet"]:
         raise TranslatorError("TunnelEndpoint.send: unexpected signature")
     term = _SendTr().tr(_body(send), [], False, {}, 1)
